@@ -19,8 +19,8 @@ func (table Hmtx) Advance(gid GlyphID) int16 {
 	index := int(gid)
 	if index < LM {
 		return table.Metrics[index].AdvanceWidth
-	} else if index < LS+LM { // return the last value
-		return table.Metrics[len(table.Metrics)-1].AdvanceWidth
+	} else if index < LS+LM && LM != 0 { // return the last value
+		return table.Metrics[LM-1].AdvanceWidth
 	}
 	return 0
 }
